@@ -22,7 +22,8 @@ VARIABLE l
 
 R == Rec[l]
 X == [via |-> R.v.via, wrapper |-> R.v.wrapper, scheme |-> R.v.scheme, scase |-> R.v.scase, host |-> R.v.host,
-      port |-> R.v.port, cert |-> R.v.cert, calpn |-> R.v.calpn, salpn |-> R.v.salpn, fault |-> R.v.fault]
+      port |-> R.v.port, cert |-> R.v.cert, calpn |-> R.v.calpn, salpn |-> R.v.salpn, fault |-> R.v.fault,
+      prev |-> R.v.prev, hist |-> R.v.hist]
 
 Range(s) == {s[i] : i \in DOMAIN s}
 \* a concrete server name in the vocabulary of the model, relative to the host the harness put into the URI
@@ -36,9 +37,12 @@ O == [result     |-> IF R.obs.result \in {"ok", "error", "panic"} THEN R.obs.res
       snis       |-> {AbsSni(n) : n \in Range(R.obs.snis)},
       verifies   |-> {AbsVerify(n) : n \in Range(R.obs.verified)},
       clientTls  |-> R.obs.clientTls,
+      shared     |-> R.obs.sharedPrev,
       peerHs     |-> R.obs.peerHs,
       taskPanics |-> R.obs.taskPanics]
 
+\* firsts / snis / peerHs are taken over the connections that carried the request under test or were opened for
+\* it (the previous request's own connection counts only if the request under test travelled on it)
 ObsInit == /\ l \in 1..N
            /\ v = X /\ asBuilt = FALSE /\ pc = "done" /\ out = O
 ObsNext == UNCHANGED <<l, vars>>
@@ -47,7 +51,8 @@ ObsNext == UNCHANGED <<l, vars>>
 WellFormed == /\ v \in Vectors
               /\ out.carrier \in {"tls", "plain", "none"}
               /\ out.clientTls \in {"yes", "no", "na"}
-              /\ out.leak \in BOOLEAN /\ out.peerHs \in BOOLEAN /\ out.taskPanics \in Nat
+              /\ out.leak \in BOOLEAN /\ out.peerHs \in BOOLEAN /\ out.taskPanics \in Nat /\ out.shared \in BOOLEAN
+              /\ (v.prev # "none" => R.obs.prevResult = "ok")      \* the history really happened
 
 Bad(c) == PrintT(<<"BAD", ToJson([i |-> l, clause |-> c])>>)
 
@@ -58,6 +63,7 @@ R_Name            == P_Name(v, out) \/ Bad("Name")
 R_FailIsError     == P_FailIsError(v, out) \/ Bad("FailIsError")
 R_OtherNotWrapped == P_OtherNotWrapped(v, out) \/ Bad("OtherNotWrapped")
 R_Outcome         == P_Outcome(v, out) \/ Bad("Outcome")
+R_PoolClass       == P_PoolClass(v, out) \/ Bad("PoolClass")
 
 \* ---- strict mode: the property itself ---------------------------------------------------------------
 C12_NoClear         == P_NoClear(v, out)
@@ -66,6 +72,7 @@ C12_Name            == P_Name(v, out)
 C12_FailIsError     == P_FailIsError(v, out)
 C12_OtherNotWrapped == P_OtherNotWrapped(v, out)
 C12_Outcome         == P_Outcome(v, out)
+C12_PoolClass       == P_PoolClass(v, out)
 
 \* ---- conformance (DRIFT only) -------------------------------------------------------------------------
 \* R.exp / R.expAsBuilt are the outcomes TLC computed on TlsRoute.tla for this vector
@@ -74,6 +81,7 @@ Same(e) == /\ e.class = Class(out)
            /\ e.carrier = out.carrier
            /\ (v.host = "odd" \/ (Range(e.snis) = out.snis /\ Range(e.verifies) = out.verifies))
            /\ e.peerHs = out.peerHs
+           /\ e.shared = out.shared
 ObsDrift == /\ (Same(R.exp) \/ PrintT(<<"DIFFI", ToJson([i |-> l])>>))
             /\ (Same(R.expAsBuilt) \/ PrintT(<<"DIFFA", ToJson([i |-> l])>>))
 
